@@ -68,7 +68,41 @@ func (p *Program) flattenAppend(v ssa.Value, depth int) []ssa.Value {
 			out = append(out, p.flattenAppend(sl.X, depth+1)...)
 			continue
 		}
+		if elems := variadicElems(o); elems != nil {
+			for _, e := range elems {
+				out = append(out, p.flattenAppend(e, depth+1)...)
+			}
+			continue
+		}
 		out = append(out, o)
+	}
+	return out
+}
+
+// variadicElems: v is the `new [n]T` array go/ssa allocates to pack variadic arguments (append(s, a, b)); returns the packed values.
+func variadicElems(v ssa.Value) []ssa.Value {
+	al, ok := v.(*ssa.Alloc)
+	if !ok {
+		return nil
+	}
+	pt, ok := al.Type().Underlying().(*types.Pointer)
+	if !ok {
+		return nil
+	}
+	if _, isArr := pt.Elem().Underlying().(*types.Array); !isArr {
+		return nil
+	}
+	var out []ssa.Value
+	for _, ref := range *al.Referrers() {
+		ia, ok := ref.(*ssa.IndexAddr)
+		if !ok {
+			continue
+		}
+		for _, r2 := range *ia.Referrers() {
+			if st, ok := r2.(*ssa.Store); ok && st.Addr == ssa.Value(ia) {
+				out = append(out, st.Val)
+			}
+		}
 	}
 	return out
 }
